@@ -66,6 +66,9 @@ type Canonicalizer struct {
 
 	loopInfo *loop.LoopInfo
 
+	// currentFn is the function being canonicalized (used to name self references).
+	currentFn *ssa.Function
+
 	registerMap          map[ssa.Value]string
 	blockMap             map[*ssa.BasicBlock]string
 	regCounter           int
@@ -114,6 +117,7 @@ func (c *Canonicalizer) CanonicalizeFunction(fn *ssa.Function) string {
 	}
 
 	c.resetScratch()
+	c.currentFn = fn
 	estimatedSize := 0
 	for _, block := range fn.Blocks {
 		estimatedSize += len(block.Instrs) * 50
@@ -166,6 +170,7 @@ func (c *Canonicalizer) AnalyzeLoops(fn *ssa.Function) {
 	if len(fn.Blocks) == 0 {
 		return
 	}
+	c.currentFn = fn
 	c.loopInfo = loop.DetectLoops(fn)
 	loop.AnalyzeSCEV(c.loopInfo)
 }
@@ -550,6 +555,7 @@ func (c *Canonicalizer) resetScratch() {
 	c.regCounter = 0
 	c.output.Reset()
 	c.loopInfo = nil
+	c.currentFn = nil
 
 	if c.virtualInstrs != nil {
 		for k := range c.virtualInstrs {
@@ -1225,10 +1231,32 @@ func (c *Canonicalizer) NormalizeOperand(v ssa.Value, context ssa.Instruction) s
 		if name, exists := c.registerMap[v]; exists {
 			return name
 		}
-		return fmt.Sprintf("<func_ref:%s:%s>", operand.Name(), sanitizeType(operand.Signature))
+		return fmt.Sprintf("<func_ref:%s:%s>", c.funcRefName(operand), sanitizeType(operand.Signature))
 	default:
 		return c.normalizeValue(v)
 	}
+}
+
+// funcRefName names a referenced function without leaking the name of the function being
+// canonicalized: a reference to the function itself (recursion) or to the enclosing top-level
+// function is rendered as "$self", and a function literal is named by its position below its
+// enclosing top-level function ("$self$1") instead of by that function's name ("Outer$1").
+func (c *Canonicalizer) funcRefName(f *ssa.Function) string {
+	root := f
+	for root.Parent() != nil {
+		root = root.Parent()
+	}
+	if root == f {
+		cur := c.currentFn
+		for cur != nil && cur.Parent() != nil {
+			cur = cur.Parent()
+		}
+		if cur == f {
+			return "$self"
+		}
+		return f.Name()
+	}
+	return "$self" + strings.TrimPrefix(f.Name(), root.Name())
 }
 
 func packageQualifier(p *types.Package) string {
